@@ -401,5 +401,6 @@ RULES = [
     ("C09.explicit_resize", lambda c, r: __import__("sa.rules.lfht2", fromlist=["x"]).rule_explicit_resize(c, r, "C09.explicit_resize")),
     ("C09.newfields", lambda c, r: __import__("sa.rules.lfht2", fromlist=["x"]).rule_newfields(c, r, "C09.newfields")),
     ("C09.workcb", lambda c, r: __import__("sa.rules.lfht2", fromlist=["x"]).rule_workcb(c, r, "C09.workcb")),
+    ("C09.orders", lambda c, r: __import__("sa.rules.lfht2", fromlist=["x"]).rule_orders(c, r, "C09.orders")),
 ]
 FLOORS = {"C09.pow2": 4}
